@@ -497,7 +497,8 @@ func c13RunChain(seed int64, idx int, nblocks int) c13Chain {
 				blk.Txs = append(blk.Txs, "undelegate "+a)
 			case 5, 6:
 				v := w.Vals[r.Intn(len(w.Vals))]
-				a := []string{"1", "3", "100", "100000000", "-2", "0", "-9223372036854775808"}[r.Intn(7)] // negative amounts must be refused (45cfd0d)
+				// negative amounts (45cfd0d) and amounts outside int64 (ed95e98) must be refused
+				a := []string{"1", "3", "100", "100000000", "-2", "0", "-9223372036854775808", "18446744073709551614", "9223372036854775808"}[r.Intn(9)]
 				in.Txs = append(in.Txs, txWithdrawReward(v, oltAmt(a), memo()))
 				blk.Txs = append(blk.Txs, "withdraw-reward "+a)
 				wmeta[len(in.Txs)-1] = [2]string{v.Val.Addr.String(), a}
@@ -634,7 +635,7 @@ func c13ProbeNegWithdraw() {
 		rep.RunBlock(&BlockIn{})
 	}
 	show("after 6 blocks")
-	for _, a := range []string{"-2", "1", "18446744073709551614", "0"} {
+	for _, a := range []string{"-2", "1", "18446744073709551614", "9223372036854775808", "0"} {
 		res := rep.RunBlock(&BlockIn{Txs: [][]byte{txWithdrawReward(v, oltAmt(a), "probe"+a)}})
 		say("WITHDRAW_REWARD %s OLT: code=%d log=%.120s\n", a, res.Txs[0].Code, res.Txs[0].Log)
 		show("  state after")
@@ -1013,9 +1014,11 @@ func c13Main(args []string) int {
 				inc("chain.matured>0")
 			}
 			for _, w := range b.WTxs {
-				k := "nonneg"
+				k := "in_range"
 				if strings.HasPrefix(w.Value, "-") {
 					k = "negative"
+				} else if !c13Big(w.Value).IsInt64() {
+					k = "above_int64"
 				}
 				inc(fmt.Sprintf("chain.withdraw_reward.%s.check=%v.deliver=%v", k, w.CheckOk, w.DeliverOk))
 			}
